@@ -64,7 +64,7 @@ class Gen:
         return ('orig', content, self.file_name(content))
 
     # ---- source maps ----
-    def consistent_map(self, value, nsources=None, inner_name=None):
+    def consistent_map(self, value, nsources=None, inner_name=None, full=False):
         """segments strictly increasing, inside `value`, indices inside the tables"""
         r = self.rng
         lines = value.split('\n')
@@ -116,6 +116,9 @@ class Gen:
                         others = [x for x in list(range(nn)) + [None] if x != pni]
                         si, ol, oc, ni = psi, pol, poc, (r.choice(others) if others else pni)
                     segs.append((li + 1, c, (si, ol, oc, ni)))
+        if with_contents and ns > 1 and inner_name is None and not full and r.random() < 0.15:
+            # sourcesContent shorter than sources: the last files carry no content
+            contents = contents[:r.randrange(1, ns)]
         return {'mappings': encode_segments(segs, r), 'sources': sources,
                 'contents': contents if with_contents else [], 'names': names,
                 'file': None if r.random() < 0.8 else 'out.js',
@@ -157,7 +160,7 @@ class Gen:
                     outer['sources'] = ['w0.js']
                 outer['sources'][r.randrange(0, len(outer['sources']))] = inner_name
                 original = self.text(10)
-                inner = self.wild_map(original) if r.random() < 0.6 else self.consistent_map(original)
+                inner = self.wild_map(original) if r.random() < 0.6 else self.consistent_map(original, full=True)
                 give = r.random()
                 return ('sms', value, inner_name, outer, original if give < 0.6 else None, inner, r.random() < 0.3)
             return ('sms', value, name, self.wild_map(value), None, None, False)
@@ -191,7 +194,7 @@ class Gen:
         elif not give_orig and r.random() < 0.8:
             outer['contents'] = ['' for _ in outer['sources']]
             outer['contents'][k] = original
-        inner = self.consistent_map(original)
+        inner = self.consistent_map(original, full=True)
         if r.random() < 0.4 and inner['sources'] and inner['contents']:
             # the inner map itself also names the inner file (e.g. a partial identity map)
             j = r.randrange(0, len(inner['sources']))
